@@ -28,6 +28,10 @@ type Truth struct {
 	// Bogus: a zone on the secure path publishes signatures whose validity window does
 	// not include the run (expired, or not yet valid): nothing from it can validate.
 	Bogus    bool
+	// BogusBehindInsecure: the zone with the bad window is only reached through an alias
+	// that an insecure zone published. That alias is not authenticated, so whoever can
+	// alter it decides whether the bad zone is visited at all.
+	BogusBehindInsecure bool
 	Wildcard bool
 	// Spoofable: the name is not an owner of its zone and the zone's NSEC3 chain is
 	// opt-out, so an insecure delegation can be claimed at it: nothing about it is
@@ -83,6 +87,9 @@ func (w *World) Truth(name string, qtype uint16) *Truth {
 		if sec {
 			for _, pz := range path {
 				if pz.Signed && (pz.SigTo.Before(w.Epoch.Add(time.Hour)) || pz.SigFrom.After(w.Epoch.Add(24*time.Hour))) {
+					if !t.Bogus && t.Insecure {
+						t.BogusBehindInsecure = true
+					}
 					t.Bogus = true
 				}
 			}
